@@ -439,5 +439,6 @@ theorem run_nodup {m : Mgr} {S : Store Var} {ps : List Post} {m' : Mgr} {S' : St
   | ok hpost _ ih => exact ih (post_nodup hpost hnd)
   | refused _ _ ih => exact ih hnd
   | newvar v _ ih => exact ih (newvar_nodup v hnd)
+  | solve ans hs _ ih => exact ih ((solve_fields hs).2.2.2 ▸ hnd)
 
 end FV.Sat
